@@ -144,6 +144,16 @@ def corpus(tier):
             out.append(plan(slowu, 1, [{'do': 'request', 'user': 'u0', 'file': 0, 'gap': 0.0},
                                        {'do': 'request', 'user': 'u1', 'file': 0, 'gap': gap},
                                        {'do': 'request', 'user': 'u2', 'file': 0, 'gap': gap}]))
+    # an upload to a privileged, slow-to-reach user breaks mid-file; while the failure notice is still being delivered the
+    # user asks again and a lower-ranked user asks too: the free slot must wait for the privileged user
+    for delay in (6.0, 8.0):
+        for gap in (1.5, 2.5):
+            pair = [{'name': 'u0', 'status': 'online', 'friend': False, 'privileged': True, 'files': 1, 'reach': {'delay': delay}},
+                    {'name': 'u1', 'status': 'online', 'friend': False, 'privileged': False, 'files': 1}]
+            out.append(plan(pair, 1, [{'do': 'request', 'user': 'u0', 'file': 0, 'gap': 0.0},
+                                      {'do': 'reset', 'user': 'u0', 'after': 2000, 'gap': delay + 1.5},
+                                      {'do': 'request', 'user': 'u0', 'file': 0, 'gap': gap},
+                                      {'do': 'request', 'user': 'u1', 'file': 0, 'gap': gap}], size=60000, speed_kbps=20))
     # offline user never started; comes online later
     out.append(plan([{'name': 'u0', 'status': 'offline', 'friend': False, 'privileged': False, 'files': 1},
                      {'name': 'u1', 'status': 'online', 'friend': False, 'privileged': False, 'files': 1}], 2,
